@@ -30,7 +30,13 @@ CLAUSE → THEOREM TABLE (review R1; property text in properties.jsonl, id C07)
        predictor"   `project_lambda_guarantee` (ANY ratio, both parts), from `project_lambda_sound` (ratio 1) and
         `project_lambda_identity` (ratio ≠ 1: the code returns λ unchanged), `project_lambda_flat`,
         `gamma_minus_eq_neg_plus`.  Hypotheses λ ≥ 0 and slack ≥ 0 are NEEDED: `project_lambda_needs_nonneg_slack`
-        (a negative `difference_bound` is accepted by the constructor; replayed on fairlearn: L drops from 2 to 0).
+        (replayed on fairlearn: L drops from 2 to 0; since fairlearn c80f72a the constructor rejects a negative slack —
+        lifted into `mkConfig` — so `accepted_config_slack_nonneg` discharges the slack hypothesis for every object that
+        can exist: `project_lambda_guarantee_of_config`).
+        TIE: `projectLambda` is computed with the guard and the entry formulas LIFTED from `UtilityParity.project_lambda`
+        (`Generated/ProjectLambdaSrc.lean`, lifter `projlambda.py`: symbolic execution of the method body, so the order
+        "negate, then clip in place" is part of the lifted text); `project_lambda_lifted` (through
+        `Lemmas/Moments.lean:src_posOf_clip0/src_negOf_clip0/src_projects_iff`) is where a source edit breaks.
 -/
 import FairModel.Lemmas.MomentsReduction
 import FairModel.Lemmas.Oracle
@@ -192,7 +198,19 @@ theorem eg_normalisation_preserves_order (w h h' : List Rat) (hne : w ≠ []) (h
     Lagrangian value is unchanged) -/
 theorem project_lambda_identity (ratio : Rat) (lp lm : List Rat) (hr : ratio ≠ 1) :
     projectLambda ratio lp lm = (lp, lm) := by
-  simp [projectLambda, hr]
+  rw [projectLambda_closed, if_neg hr]
+
+/-- **the tie of (5) to the source**: `projectLambda` is computed with the entry formulas and the guard LIFTED from
+    `UtilityParity.project_lambda` (`Generated/ProjectLambdaSrc.lean`: `lambda_pos = λ⁺ − λ⁻`, `lambda_neg = −lambda_pos`
+    taken before the in-place clips, both clipped at 0, keyed `+` / `-`, only `if self.ratio == 1.0`); for the text in
+    the tree it is the projection of every pair onto the positive / negative part of its difference.  A sign, threshold,
+    key or data-flow change in the source changes the lifted text and this theorem (hence `project_lambda_sound`,
+    `project_lambda_guarantee`) no longer checks. -/
+theorem project_lambda_lifted (ratio : Rat) (lp lm : List Rat) :
+    projectLambda ratio lp lm =
+      if ratio = 1 then ((List.zipWith (· - ·) lp lm).map clip0, (List.zipWith (· - ·) lp lm).map (fun x => clip0 (-x)))
+      else (lp, lm) :=
+  projectLambda_closed ratio lp lm
 
 /-- the flat version used on the `index`-ordered vector splits it into its `+` and `-` halves -/
 theorem project_lambda_flat (ratio : Rat) (lp lm : List Rat) (hlen : lp.length = lm.length) :
@@ -216,8 +234,8 @@ theorem project_lambda_sound (ev : Ev) (rows : List Row) (ut : Util) (h : List R
     lagrangianValue err (lp ++ lm) (gamma ev rows 1 ut h) (bound ev rows eps)
       ≤ lagrangianValue err (p.1 ++ p.2) (gamma ev rows 1 ut h) (bound ev rows eps) := by
   intro p
-  have hp1 : p.1 = (List.zipWith (· - ·) lp lm).map clip0 := by simp [p, projectLambda]
-  have hp2 : p.2 = (List.zipWith (· - ·) lp lm).map (fun x => clip0 (-x)) := by simp [p, projectLambda]
+  have hp1 : p.1 = (List.zipWith (· - ·) lp lm).map clip0 := by simp [p, project_lambda_lifted]
+  have hp2 : p.2 = (List.zipWith (· - ·) lp lm).map (fun x => clip0 (-x)) := by simp [p, project_lambda_lifted]
   constructor
   · intro x hx
     rw [hp1, hp2] at hx
@@ -687,16 +705,44 @@ theorem project_lambda_guarantee (ev : Ev) (rows : List Row) (ratio : Rat) (ut :
     · exact hp x hx
     · exact hm x hx
 
-/-- the slack must be non-negative for that guarantee: `DemographicParity(difference_bound = −1)` is accepted by the
-    constructor, and projecting λ = (1, 0 | 1, 0) to (0, 0 | 0, 0) lowers `Σ λ·(γ − ε)` from 2 to 0 (two rows, two
-    groups, predictor 0; replayed on fairlearn by review R1) -/
+/-- the slack must be non-negative for that guarantee: with slack −1, projecting λ = (1, 0 | 1, 0) to (0, 0 | 0, 0) lowers
+    `Σ λ·(γ − ε)` from 2 to 0 (two rows, two groups, predictor 0; replayed on fairlearn by review R1 — finding F24).  Since
+    fairlearn c80f72a the constructor REJECTS such a configuration (`if self.eps < 0: raise`, lifted into `mkConfig`
+    through `slackMustBeNonneg`), first conjunct; before that commit it was accepted. -/
 theorem project_lambda_needs_nonneg_slack :
     let rows : List Row := [⟨0, "a", none⟩, ⟨0, "b", none⟩]
     let p := projectLambda 1 [1, 0] [1, 0]
-    mkConfig (some (-1)) none 0 = .ok (-1, 1) ∧
+    mkConfig (some (-1)) none 0 = .error .negSlack ∧
     lagrangianValue 0 ([1, 0] ++ [1, 0]) (gamma (eventOf .dp) rows 1 defaultUtil [0, 0]) (bound (eventOf .dp) rows (-1)) = 2 ∧
     lagrangianValue 0 (p.1 ++ p.2) (gamma (eventOf .dp) rows 1 defaultUtil [0, 0]) (bound (eventOf .dp) rows (-1)) = 0 := by
   decide +kernel
+
+/-- every configuration the (lifted) constructor accepts has a non-negative slack — so the hypothesis `0 ≤ eps` of
+    `project_lambda_guarantee` holds for every `UtilityParity` object that exists (this is what the F24 repair bought) -/
+theorem accepted_config_slack_nonneg (d r : Option Rat) (s eps ratio : Rat) (h : mkConfig d r s = .ok (eps, ratio)) :
+    0 ≤ eps := by
+  unfold mkConfig at h
+  simp only [Generated.ValidationTables.slackMustBeNonneg, Bool.true_and] at h
+  split at h
+  · split at h
+    · cases h
+    · next hneg =>
+      cases h
+      simpa using hneg
+  · split at h <;> cases h
+
+/-- `project_lambda_guarantee` for every constructible moment: the slack hypothesis is discharged by the constructor -/
+theorem project_lambda_guarantee_of_config (d r : Option Rat) (s eps ratio : Rat) (hcfg : mkConfig d r s = .ok (eps, ratio))
+    (ev : Ev) (rows : List Row) (ut : Util) (h : List Rat) (err : Rat)
+    (lp lm : List Rat) (hp : ∀ x ∈ lp, 0 ≤ x) (hm : ∀ x ∈ lm, 0 ≤ x)
+    (h1 : lp.length = (observedPairs ev rows).length) (h2 : lm.length = (observedPairs ev rows).length) :
+    let p := projectLambda ratio lp lm
+    (∀ x ∈ p.1 ++ p.2, 0 ≤ x) ∧
+    lagrangianValue err (lp ++ lm) (gamma ev rows ratio ut h) (bound ev rows eps)
+      ≤ lagrangianValue err (p.1 ++ p.2) (gamma ev rows ratio ut h) (bound ev rows eps) :=
+  project_lambda_guarantee ev rows ratio ut h eps err lp lm (accepted_config_slack_nonneg d r s eps ratio hcfg) hp hm h1 h2
+
+example : mkConfig (some (1/8)) none 0 = .ok (1/8, 1) := by decide +kernel
 
 /-! non-vacuity: all hypotheses of the main theorems met simultaneously by `ex1` (6 rows, 2 groups, 2 strata, both
     labels), non-trivial multipliers and two different predictors -/
